@@ -402,12 +402,13 @@ def unit_distinct_count_init():
         first = fresh(TOKD, "first_token")[0]; rule = fresh(STR, "rule")[0]
         # A-TOK (first token): a NAME token that starts the rule ends on line 1 at a column > 0, and the rule text before that column ends with the name
         c = pcol(tend(first.z)); t = ttext(first.z)
-        st.pc.append(z3.Implies(ttype(first.z) == TK.NAME, z3.And(pline(tend(first.z)) == 1, c > 0, c <= z3.Length(rule.z), z3.Length(t) > 0, z3.SubString(rule.z, c - z3.Length(t), z3.Length(t)) == t)))
+        # (a rule starting with a backslash and a line break has its first NAME on a later line: the constructor refuses it)
+        st.pc.append(z3.Implies(ttype(first.z) == TK.NAME, z3.And(pline(tend(first.z)) >= 1, z3.Implies(pline(tend(first.z)) == 1, z3.And(c > 0, c <= z3.Length(rule.z), z3.Length(t) > 0, z3.SubString(rule.z, c - z3.Length(t), z3.Length(t)) == t)))))
         names, c2 = fresh(UFList(STR), "available"); st.pc.extend(c2)
         loc = Ref("Location"); st.heap[loc.oid] = loc_fields(fresh(INT, "line")[0], 0)
         self = Ref("DistinctCountCheck"); st.heap[self.oid] = {}
         st.frames[-1].env.update({"self": self, "description": "d", "rule": rule, "available_field_names": names, "location": loc})
-        st.ghost.update({"first": first, "rule": rule, "this": self, "names": names, "tok_failed": False, "lookup": None, "lookup_failed": False})
+        st.ghost.update({"first": first, "rule": rule, "this": self, "names": names, "tok_failed": False, "lookup": None, "lookup_failed": False, "compile_failed": False, "compiled": None})
     def m_generated_tokens(ex, st, fn, args, kw):
         it = Ref("TokenIter"); st.heap[it.oid] = {"cursor": 0}
         ex.obligations.append(Obligation("tokenizes-the-rule", st.pc, z3.BoolVal(args[0] is st.ghost["rule"]), "post", props=["C09"]))
@@ -422,6 +423,26 @@ def unit_distinct_count_init():
         for s2, b in ex.fork(st, Sym(BOOL, known)):
             if b: yield s2, fresh(INT, "idx")[0]
             else: s2.ghost["lookup_failed"] = True; yield from raise_new(ex, s2, "InterfaceError")
+    def other_names(ex, e): return ex.absfun_s("refers_to_names_other_than_count", [z3.StringSort()], z3.BoolSort())(e)
+    def m_compile(ex, st, fn, args, kw):
+        # A-COMPILE: compile(expr, <name>, 'eval') fails with SyntaxError / ValueError or yields a code object whose co_names are the names the expression refers to
+        ex.obligations.append(Obligation("compiles-the-count-expression-as-an-expression", st.pc, z3.BoolVal(len(args) >= 3 and args[2] == "eval"), "post", props=["C09"]))
+        for cls in ("SyntaxError", "ValueError"):
+            sb = st.copy(); sb.ghost["compile_failed"] = True; yield sb, Raise(ex.new_builtin_exc(sb, cls, ["cannot compile"]))
+        names = Ref("NameTuple"); st.heap[names.oid] = {"expr": args[0]}
+        code = Ref("code"); st.heap[code.oid] = {"co_names": names}; st.ghost["compiled"] = args[0]
+        yield st, code
+    def m_set(ex, st, fn, args, kw):
+        if not (len(args) == 1 and isinstance(args[0], Ref) and args[0].cls == "NameTuple"): raise Unsupported("set() of something else than the names of the compiled expression")
+        r = Ref("NameSet"); st.heap[r.oid] = {"expr": st.heap[args[0].oid]["expr"], "discarded": []}; yield st, r
+    def m_discard(ex, st, recv, args, kw):
+        st.heap[recv.oid]["discarded"] = st.heap[recv.oid]["discarded"] + [args[0]]; yield st, None
+    def nameset_truth(ex, st, r):
+        o = st.heap[r.oid]
+        if o["discarded"] != ["count"]: raise Unsupported("the names left are only modelled after discarding exactly 'count'")
+        return Sym(BOOL, other_names(ex, lift(o["expr"]).z))
+    def m_sorted(ex, st, fn, args, kw): yield st, Opaque()
+    def m_hrl(ex, st, fn, args, kw): yield st, fresh(STR, "names_text")[0]
     def expected_expr(st): 
         f = st.ghost["first"].z; r = G(st, "rule"); c = pcol(tend(f)); return z3.Concat(z3.StringVal("count"), z3.SubString(r, c, z3.Length(r) - c))
     def kind0(ex, st, e): return ex.absfun_s("eval_kind", [z3.StringSort(), z3.IntSort()], z3.IntSort())(e, z3.IntVal(0)) == 0
@@ -431,19 +452,24 @@ def unit_distinct_count_init():
         static = lk is not None and lk[1] is g["names"] and isinstance(d, (dict, UFDict))
         if not static: return Sym(BOOL, z3.BoolVal(False))
         empty = z3.BoolVal(len(d) == 0) if isinstance(d, dict) else d.size == 0
-        return Sym(BOOL, z3.And(ttype(f) == TK.NAME, lift(o["_field_name_to_count"]).z == ttext(f), lift(lk[0]).z == ttext(f), lift(o["_expression"]).z == expected_expr(st), kind0(ex, st, expected_expr(st)), empty))
+        return Sym(BOOL, z3.And(ttype(f) == TK.NAME, pline(tend(f)) == 1, lift(o["_field_name_to_count"]).z == ttext(f), lift(lk[0]).z == ttext(f), lift(o["_expression"]).z == expected_expr(st), kind0(ex, st, expected_expr(st)), empty,
+                                z3.BoolVal(g.get("compiled") is not None), lift(g["compiled"]).z == expected_expr(st) if g.get("compiled") is not None else z3.BoolVal(False), z3.Not(other_names(ex, expected_expr(st)))))
     def c_refused(ex, st):
         g = st.ghost; f = g["first"].z
-        return Sym(BOOL, z3.Or(z3.BoolVal(bool(g["tok_failed"]) or bool(g["lookup_failed"])), g["names"].length == 0, ttype(f) != TK.NAME, z3.Not(kind0(ex, st, expected_expr(st)))))
+        return Sym(BOOL, z3.Or(z3.BoolVal(bool(g["tok_failed"]) or bool(g["lookup_failed"]) or bool(g.get("compile_failed"))), g["names"].length == 0, ttype(f) != TK.NAME, pline(tend(f)) != 1, z3.Not(kind0(ex, st, expected_expr(st))),
+                               other_names(ex, expected_expr(st))))
     def make(ctx):
         c = Contract("checks.DistinctCountCheck.__init__", setup,
-                returns=[Clause(c_bound, "counts-the-declared-field-named-first-in-the-rule-the-expression-is-'count'-plus-the-rest-of-the-rule-it-evaluates-to-a-bool-and-nothing-is-counted-yet", props=["C05", "C09"])],
-                raises={"InterfaceError": [Clause(c_refused, "refused-only-for-an-untokenizable-rule-a-rule-not-starting-with-a-declared-field-name-or-a-rest-that-is-no-boolean-expression", props=["C09", "C05"])]},
+                returns=[Clause(c_bound, "counts-the-declared-field-named-first-in-the-rule-the-expression-is-'count'-plus-the-rest-of-the-rule-it-refers-to-no-other-name-evaluates-to-a-bool-and-nothing-is-counted-yet", props=["C05", "C09"])],
+                raises={"InterfaceError": [Clause(c_refused, "refused-only-for-an-untokenizable-rule-a-rule-not-starting-with-a-declared-field-name-a-rest-naming-anything-else-or-a-rest-that-is-no-boolean-expression", props=["C09", "C05"])]},
                 expect=["return", "InterfaceError"], raises_only_props=["C05", "C09", "C10"])
         return {"contract": c, "callees": {"checks.generated_tokens": ModelContract(m_generated_tokens), "_tools.generated_tokens": ModelContract(m_generated_tokens), "ref:TokenIter.__next__": tok_next,
-                                           "fields.field_name_index": ModelContract(m_field_name_index), "builtin:eval": m_eval},
-                "assumptions": ["A-TOK (first token): a leading NAME token ends on line 1 at column c > 0 with rule[c-len(name):c] == name (audited: checks.A-TOK-first-token)",
+                                           "fields.field_name_index": ModelContract(m_field_name_index), "builtin:eval": m_eval,
+                                           "builtin:compile": m_compile, "builtin:set": m_set, "ref:NameSet.discard": m_discard, "reftruth:NameSet": nameset_truth, "builtin:sorted": m_sorted,
+                                           "_tools.human_readable_list": ModelContract(m_hrl)},
+                "assumptions": ["A-TOK (first token): a leading NAME token that ends on line 1 ends at column c > 0 with rule[c-len(name):c] == name (audited: checks.A-TOK-first-token)",
                                 "A-EVAL: eval(expr, {}, {'count': n}) is an abstract function of (expr, n): a bool, another value or an exception",
+                                "A-COMPILE: compile(expr, name, 'eval') raises SyntaxError / ValueError or returns a code object; 'its co_names minus count is non-empty' is the uninterpreted predicate refers_to_names_other_than_count(expr) (audited natively: checks.DistinctCount rules sweep)",
                                 "fields.field_name_index is used through its verified contract (fields.field_name_index)"]}
     return ProofUnit("checks.DistinctCountCheck.__init__", "DistinctCountCheck.__init__: field to count = leading name of the rule (declared), expression = 'count' + rest, test evaluation, fresh state", ["C05", "C09", "C10"], make, None)
 
